@@ -12,7 +12,7 @@ import re
 
 from sa.core.common import AnalysisError, Collector
 from sa.core.paths import enumerate_paths, guards, parent_map
-from sa.core.pyfacts import Repo, arg, call_name, const_str, kwarg, src, walk_no_nested
+from sa.core.pyfacts import Repo, arg, call_name, const_str, kwarg, src, walk_no_nested, ordk, ordk_end
 from sa.core.scope_typestate import ScopeInterp
 from sa.core.templates import parts, shape
 from sa.props._tr import check_finder, defs_of
@@ -133,7 +133,7 @@ def check(col: Collector, tier: str):
     adds = [c for c in walk_no_nested(fn) if isinstance(c, ast.Call) and call_name(c) == "add_statement" and src(c.func.value) == bname]
     code_add = [c for c in adds if isinstance(c.args[0], ast.Call) and call_name(c.args[0]) == "arbitrary_statement"]
     res_add = [c for c in adds if isinstance(c.args[0], ast.Call) and call_name(c.args[0]) == "set_var"]
-    ok = ok and len(code_add) == 1 and len(res_add) == 1 and code_add[0].lineno < res_add[0].lineno
+    ok = ok and len(code_add) == 1 and len(res_add) == 1 and ordk(code_add[0]) < ordk(res_add[0])
     col.add("C11.R2", pan.short, "code-lines-then-result-assignment-inside-the-block", ok,
             "the block must receive every running-code line and then, last, the assignment of the result", pan.loc)
     if res_add:
@@ -246,7 +246,7 @@ def check(col: Collector, tier: str):
         for prov in providers:
             ups = [c for c in walk_no_nested(ini.node) if isinstance(c, ast.Call) and call_name(c) == "update" and tbl and src(c.func.value) == tbl
                    and c.args and isinstance(c.args[0], ast.Call) and call_name(c.args[0]) == prov and not guards(ini.node, c, pmi)
-                   and sup and c.lineno < sup[0].lineno]
+                   and sup and ordk(c) < ordk(sup[0])]
             col.add("C11.R5", f"{ename}.__init__", f"registers-built-ins:{prov}", len(ups) == 1,
                     f"the method table handed to the base class ({tbl}) must be updated with {prov}() unconditionally before it is handed over "
                     "(otherwise DeltaR / isNonnull / getAttributeFloat calls are left as unknown calls on this backend)", ini.loc)
